@@ -313,7 +313,7 @@ def _add(w, o):
     p = w.get("c", o["parent"])
     s = w.get("c", o["sub"])
     kw = {}
-    if "name" in o:
+    if o.get("name") is not None or "name" in o:
         kw["name"] = o["name"]
     w.call(p.add, s, val(w, o.get("mode", 0)), o.get("group", False), **kw)
     pm, sm = cmeta(w, o["parent"]), cmeta(w, o["sub"])
